@@ -126,7 +126,7 @@ pub fn run(ctx: &Ctx) -> CheckResult {
     let extra = if th { 2 } else { 1 };
     let base = [1.0, 2.0, 4.0, 7.0];
     // prefix alphabet: ordinary values + spikes 10^6 and 10^3 times larger + a negative spike
-    let pre_vals: [f64; 7] = [1.0, 4.0, 7.0, 1e6, 7e6, -3e6, 2e3];
+    let pre_vals: [f64; 9] = [1.0, 4.0, 7.0, 1e6, 7e6, -3e6, 2e3, 1.0e9, 3.7e10];
     let mut cfgs = vec![];
     for n in 1..=4usize {
         for k in [Kind::Sma, Kind::Wma, Kind::Sd, Kind::Mad, Kind::Min, Kind::Max, Kind::FastStoch, Kind::Cci, Kind::Roc, Kind::Er, Kind::Mfi] {
@@ -155,10 +155,15 @@ pub fn run(ctx: &Ctx) -> CheckResult {
         let mut mfi_pre: Vec<Bar> = crate::alpha::b_mfi();
         mfi_pre.push(Bar::hlcv(3e3, 1e3, 2e3, 1.0));
         mfi_pre.push(Bar::hlcv(2e3, 2e3, 2e3, 1e3));
+        // zero-volume bars (padding) at a different price level
+        mfi_pre.push(Bar::hlcv(0.5, 0.5, 0.5, 0.0));
+        let mut mfi_base = mfi_base;
+        mfi_base.push(Bar::hlcv(2.5, 2.5, 2.5, 0.0));
         let mut suffix: Vec<Op> = vec![];
         let mut full: Vec<Op> = vec![];
         let mut n = 0u64;
-        for_each_seq_exact(base.len(), *slen, |sq| {
+        let nsym = if cfg.kind == Kind::Mfi { mfi_base.len() } else { base.len() };
+        for_each_seq_exact(nsym, *slen, |sq| {
             n += 1;
             if n % 16 == 0 && ctx.out_of_time() {
                 out.stats.capped.push(format!("time cap in {}", cfg.descr()));
@@ -182,7 +187,7 @@ pub fn run(ctx: &Ctx) -> CheckResult {
                 // negative prices make no sense for bar kinds and ratio kinds: use magnitudes there
                 full.clear();
                 if cfg.kind == Kind::Mfi {
-                    full.extend(p.iter().map(|&a| Op::B(mfi_pre[a as usize])));
+                    full.extend(p.iter().map(|&a| Op::B(mfi_pre[a as usize % mfi_pre.len()])));
                 } else {
                 full.extend(p.iter().enumerate().map(|(i, &a)| {
                     let x = pre_vals[a as usize];
@@ -288,6 +293,6 @@ pub fn run(ctx: &Ctx) -> CheckResult {
     }
     res.extra.insert("configurations".into(), json!(cfgs.len()));
     res.rule = "case = (configuration, prefix, suffix): the real output after prefix+suffix is compared with a fresh real instance fed only the suffix (length n or n+1, and up to 2 more): == for MIN/MAX/FAST_STOCH, tau(t)*M with t and M of the whole history for the accumulating ones (SD and Bollinger half-widths as variances, ratios times their condition number, gated at 1e6); a differential oracle with no hand-written expected values; non-trivial = non-empty prefix".into();
-    res.bounds = format!("SMA, WMA, SD, MAD, MIN, MAX, FAST_STOCH, BB, CCI (suffix n) and ROC, ER, MFI (suffix n+1), periods 1..4; every prefix over {{1,4,7,1e6,7e6,-3e6,2e3}} up to depth {dp}; every suffix over {{1,2,4,7}} of length w..w+{extra}; larger periods (up to 64/257): 3 suffix patterns of length w..w+2 after spike-laden prefixes of 7 lengths");
+    res.bounds = format!("SMA, WMA, SD, MAD, MIN, MAX, FAST_STOCH, BB, CCI (suffix n) and ROC, ER, MFI (suffix n+1), periods 1..4; every prefix over {{1,4,7,1e6,7e6,-3e6,2e3,1e9,3.7e10}} up to depth {dp}; every suffix over {{1,2,4,7}} of length w..w+{extra}; larger periods (up to 64/257): 3 suffix patterns of length w..w+2 after spike-laden prefixes of 7 lengths");
     res
 }
